@@ -8,6 +8,7 @@ import (
 	"strings"
 	"sync"
 
+	sdkmath "cosmossdk.io/math"
 	codectypes "github.com/cosmos/cosmos-sdk/codec/types"
 	sdk "github.com/cosmos/cosmos-sdk/types"
 	txtypes "github.com/cosmos/cosmos-sdk/types/tx"
@@ -287,6 +288,27 @@ func perturbations(r *vh.RNG, d *doc, signer []byte) []pert {
 			return ok
 		})
 	}
+	// fee lists that a "canonical coins" constructor would fold together: a zero-amount coin more, the same coins in
+	// another order (different sign documents; a rendering may refuse them but not render them like the original)
+	add("fee_coin_add_zero", "fee_coin_add_zero", "", false, func(c *doc) bool {
+		denom := vh.Pick(r, []string{"uatom", "zzz", "aaa", vh.SecondDenom})
+		for _, x := range c.Fee {
+			if x.Denom == denom {
+				return false
+			}
+		}
+		c.Fee = append(append(sdk.Coins{}, c.Fee...), sdk.Coin{Denom: denom, Amount: sdkmath.ZeroInt()})
+		return true
+	})
+	add("fee_coin_reorder", "fee_coin_reorder", "", false, func(c *doc) bool {
+		if len(c.Fee) < 2 {
+			return false
+		}
+		n := append(sdk.Coins{}, c.Fee...)
+		n[0], n[len(n)-1] = n[len(n)-1], n[0]
+		c.Fee = n
+		return true
+	})
 	// message list structure
 	add("msgs:append", "msgs", "", false, func(c *doc) bool {
 		k := kinds[r.Intn(len(kinds))]
